@@ -2,11 +2,15 @@ prop("C27",
      theorems=["NeoFS.Policer.replicator_sound", "NeoFS.Policer.pass_tasks_sound", "NeoFS.Policer.pass_keeps_covered",
                "NeoFS.Policer.turns_keep_covered", "NeoFS.Policer.round_keeps_covered", "NeoFS.Policer.rounds_keep_covered",
                "NeoFS.Policer.walk_progress", "NeoFS.Policer.processNodes_progress", "NeoFS.Policer.single_rule_pass_restores",
-               "NeoFS.Policer.single_rule_round_converges", "NeoFS.Policer.single_rule_converges"],
+               "NeoFS.Policer.single_rule_round_converges", "NeoFS.Policer.single_rule_converges",
+               "NeoFS.Policer.handleTaskC_sound", "NeoFS.Policer.interrupted_transfer_not_reported", "NeoFS.Policer.handleTaskC_no_cut",
+               "NeoFS.Policer.shortage_never_wraps", "NeoFS.Policer.task_quantity_bounded", "NeoFS.Policer.pass_task_quantity_bounded"],
+     lean_modules=["NeoFS.Props.C27", "NeoFS.Props.C27b"],
      engines=[dict(name="policer", quick=1, thorough=1)],
      claim="PARTIAL. Lean proves over the cluster model (state = set of holders of one object; a cycle = the nodes of an arbitrary order take "
            "turns, every holder running the C26 pass with itself as the local node against the shared state, truthful HEAD answers, nodes "
-           "that are down answer with errors and refuse replicas), for ALL clusters with REP rules, all orders, all down sets, all numbers "
+           "that are down answer with errors and refuse replicas, nodes in the MAINTENANCE state of the network map are not asked, refuse "
+           "replicas and do not run), for ALL clusters with REP rules, all orders, all down sets, all maintenance sets, all numbers "
            "of cycles: (1) the replicator reports at most the requested number of successes, only nodes of the task, never the local node, "
            "only nodes that accepted the object - for every task of every pass (replicator_sound, pass_tasks_sound); (2) SAFETY, using the "
            "C26 theorem: no turn, no cycle and no sequence of cycles takes a rule that has its required number of distinct holders below that "
@@ -22,7 +26,20 @@ prop("C27",
            "holders, 0-3 unstable cycles with nodes down and partial orders, then 4 stable full cycles), compared cycle by cycle with the "
            "model, and the oracle requires: after 2 stable cycles every satisfiable rule has its copies on its primary nodes, in the 3rd "
            "no task with candidates is issued, in the 4th nothing moves; every turn keeps covered rules covered; every task report is sound.",
-     note="Trusted: Lean kernel; hand model Model/Policer.lean (cluster section), tied by correspondence. Not modelled: timing, worker pools, "
+     note="EXTENSION (Props/C27b.lean). (4) Replicator.HandleTask with the context cancelled while a transfer is in flight, with and "
+          "without the object carried by the task, for EVERY environment, quantity, node list and cancellation point: at most `quantity` "
+          "successes, only task nodes, a remote node only if it really stored the object, the interrupted node never "
+          "(handleTaskC_sound, interrupted_transfer_not_reported); without cancellation it is the loop of the pass model "
+          "(handleTaskC_no_cut). Tied by op `task`: the REAL HandleTask over the real storage engine, the remote fake cancels the "
+          "task's context during the call (failing, or after having stored), oracle = the property's sentence recounted from what the "
+          "fakes stored. (5) The shortage counter of processNodes is modelled as the code's uint32 (dec32 wraps at zero): for EVERY environment - maintenance nodes of the network map at any position, the local node anywhere or outside "
+          "the container - the counter never grows through the node loop (shortage_never_wraps), so no task of any pass asks for more "
+          "copies than a rule requires except the rebalancing task with one copy per candidate (task_quantity_bounded, "
+          "pass_task_quantity_bounded). Tied by `pass` ops with every single and every pair of maintenance nodes at every position of "
+          "lists of 2..5 nodes, the local node at every position or outside, plus seeded overlapping lists, and by cluster cycles with "
+          "maintenance nodes; oracle task-quantity-within-rule-requirement on every pass. The convergence sentences are asserted only "
+          "for cycles without down or maintenance nodes (the property's 'stable network map and reachable nodes'). "
+          "Trusted: Lean kernel; hand model Model/Policer.lean (cluster section), tied by correspondence. Not modelled: timing, worker pools, "
           "batching/boost window, concurrency of passes of different nodes (turns are sequential), partial visibility. Observation worth a "
           "maintainer's look (not a violation of the statement as read here): in containers with several REP rules whose lists overlap, a node "
           "confirmed as holder while processing an earlier list is skipped WITHOUT lowering the shortage of a later list (nodeCache hit => "
@@ -30,10 +47,15 @@ prop("C27",
           "EMPTY candidate list is issued for ever (hadReplicaShortage => consistency metric false, boost mode), and a backup node of the later "
           "list can receive and keep an extra copy. The run counts these (histogram task-without-candidates, quiescent-round-with-empty-tasks); "
           "'stop replicating' is read as 'no task with candidate nodes'.",
-     rule="700 (thorough 20000) seeded clusters: 3..6 container nodes + 1 outsider, 1..3 REP lists (random permutations of random subsets), "
-          "REP 1..min(3,len), type REG (4/7) TS LOCK LINK, random non-empty initial holders; 0..3 unstable cycles (each node down with p=1/4, "
-          "each node in the order with p=2/3) then 4 stable cycles in random full orders; per cycle: holders, number of tasks, drops; per "
+     rule="maintenance family: lists of 2..5 (thorough 6) nodes x local node at every position or outside x every single / (half of the) pairs of "
+          "maintenance nodes x REP 1..3 x 4 holder patterns, 1500 (40000) seeded overlapping placements with maintenance flags p=1/3; task "
+          "family: all lists of 1..3 nodes out of {1,2,3,local} x acceptance tables x quantity 0..3 x cancellation at every node or never "
+          "(a third in quick) + 1500 (40000) seeded tasks of 1..7 nodes, cancellation in half of them, quantity up to 2^32-1; "
+          "700 (thorough 20000) seeded clusters: 3..6 container nodes + 1 outsider, 1..3 REP lists (random permutations of random subsets), "
+          "REP 1..min(3,len), type REG (4/7) TS LOCK LINK, random non-empty initial holders; 0..3 unstable cycles (each node down with p=1/4, in maintenance with p=1/6, "
+          "each node in the order with p=2/3), in a third of the clusters 2 cycles with ONE fixed maintenance node and everybody else up, then 4 stable cycles in random full orders; per cycle: holders, number of tasks, drops; per "
           "turn: replicator report and rule coverage before/after; non-trivial = every cycle; distinct by history prefix",
      trusted=["the storage engine under the real replicator is exercised, not modelled here"],
-     assumptions=["turns of different nodes do not overlap in time", "HEAD answers are truthful (a node answers `has` iff it holds the object)",
+     assumptions=["a cancelled context makes the interrupted call fail or arrive; the loop then stops at its next iteration (ctx.Done)",
+                  "turns of different nodes do not overlap in time", "HEAD answers are truthful (a node answers `has` iff it holds the object)",
                   "the container exists and has REP rules only (EC parts are covered by C26's EC theorem, not by the cluster model)"])
